@@ -264,6 +264,9 @@ class Program:
                     from .unroll import METHOD_NAMES
                     for m_ in re.finditer(r"^(\s*)def (\w+)\(", src, re.M):
                         METHOD_NAMES.add(m_.group(2))
+                    # module-level operator helpers (`_lower = methodcaller("lower")`) are functions by another spelling
+                    for m_ in re.finditer(r"^(\w+) = (?:operator\.)?(?:attrgetter|itemgetter|methodcaller)\(", src, re.M):
+                        METHOD_NAMES.add(m_.group(1))
                     for m_ in re.finditer(r"@(?:property|\w+\.setter|\w+\.deleter)\s*\n\s*def (\w+)\(", src):
                         METHOD_NAMES.discard(m_.group(1))
                         _PROPERTY_NAMES.add(m_.group(1))
